@@ -335,21 +335,18 @@ func (e *ExecutorV3) RunTx(context state.Interface, rawTx []byte, rewardPool *bi
 					var resp *Response
 					resp, symbolPrice, _ = CheckSwap(checkState.Swap().GetSwapper(commissions.Coin, types.GetBaseCoinID()), checkState.Coins().GetCoin(commissions.Coin), checkState.Coins().GetCoin(0), symbolPrice, big.NewInt(0), false)
 					if resp != nil {
-						return *resp
+						symbolPrice = nil
 					}
 				}
-				if symbolPrice == nil || symbolPrice.Sign() != 1 {
-					return Response{
-						Code: code.CommissionCoinNotSufficient,
-						Log:  fmt.Sprint("Not possible to pay commission"),
-						Info: EncodeError(code.NewCommissionCoinNotSufficient("", "")),
-					}
+				// the transaction has been executed by now and must not be turned into a rejection:
+				// a ticker price that is zero or cannot be converted is simply not burned
+				if symbolPrice != nil && symbolPrice.Sign() == 1 {
+					rewardPool.Sub(rewardPool, symbolPrice)
+					deliverState.Accounts.AddBalance([20]byte{}, 0, symbolPrice)
+					response.Tags = append(response.Tags,
+						abcTypes.EventAttribute{Key: []byte("tx.burned_for_symbol"), Value: []byte(symbolPrice.String())},
+					)
 				}
-				rewardPool.Sub(rewardPool, symbolPrice)
-				deliverState.Accounts.AddBalance([20]byte{}, 0, symbolPrice)
-				response.Tags = append(response.Tags,
-					abcTypes.EventAttribute{Key: []byte("tx.burned_for_symbol"), Value: []byte(symbolPrice.String())},
-				)
 			}
 		}
 	}
